@@ -313,6 +313,8 @@ class Translator:
             return E("true" if v else "false", BOOL)
         if type(v) is int and v >= 0:
             return E(str(v), NAT, lit=v)
+        if type(v) is str and self.pure is not None and re.fullmatch(r"[A-Za-z0-9_ .:-]*", v):
+            return E('"' + v + '"', PYSTR)                                  # W28: a plain ASCII literal, as an opaque `String` (only `==` / spec'd calls)
         raise Unsupported(n, "constant outside the subset")
 
     def ex_Name(self, n):
@@ -687,7 +689,7 @@ class Translator:
             if rec is not None and (rec, f.attr) in self.pure.methods:
                 tpl, ty = self.pure.methods[(rec, f.attr)]
                 return E(tpl.format(obj), ty)
-        if self.pure is not None and not n.keywords:
+        if self.pure is not None and (not n.keywords or self._kw_call(n)):
             # a function / method that is not translated: the spec names the hand-written Lean term that stands for it
             key, obj = None, ""
             if isinstance(f, ast.Name) and (None, f.id) in self.pure.calls:
@@ -704,10 +706,18 @@ class Translator:
                 key = (rec, f.attr) if rec is not None else None
             if key in self.pure.calls:
                 tpl, arg_tys, ret, raises = self.pure.calls[key]
-                if len(arg_tys) != len(n.args):
-                    raise Unsupported(n, f"{key[1]} takes {len(arg_tys)} positional argument(s) in the spec")
+                actual = list(n.args)
+                if n.keywords:
+                    # W28: trailing arguments passed by keyword, in the order of the parameter names the spec declares
+                    names = self.pure.call_keywords.get(key)
+                    kws = [k.arg for k in n.keywords]
+                    if names is None or len(names) != len(arg_tys) or None in kws or kws != names[len(n.args):]:
+                        raise Unsupported(n, f"keyword arguments of {key[1]}: the spec declares the parameters {names}")
+                    actual += [k.value for k in n.keywords]
+                if len(arg_tys) != len(actual):
+                    raise Unsupported(n, f"{key[1]} takes {len(arg_tys)} argument(s) in the spec")
                 args = []
-                for a, want in zip(n.args, arg_tys):
+                for a, want in zip(actual, arg_tys):
                     if isinstance(a, ast.Starred):
                         raise Unsupported(n, "starred argument")
                     e = self.ex(a)
@@ -717,8 +727,19 @@ class Translator:
                 return E(tpl.format(*args, obj=obj), ret)
         raise Unsupported(n, "call outside the subset")
 
+    def _kw_call(self, n):
+        """a call with keyword arguments: only a method of a spec'd record for which the spec declares parameter names"""
+        f = n.func
+        if isinstance(f, ast.Attribute) and isinstance(f.value, ast.Name):
+            try:
+                rec, _ = self._record_of(f.value)
+            except Unsupported:
+                return False
+            return (rec, f.attr) in self.pure.call_keywords
+        return False
+
     # builtins whose meaning on the abstract records of a `PureSpec` the spec has to name (`calls[(None, "isinstance")]`)
-    SPEC_BUILTINS = {"isinstance"}
+    SPEC_BUILTINS = {"isinstance", "int"}
     BUILTIN_TYPES = {"int", "float", "str", "bytes", "bytearray", "bool", "dict", "list", "tuple"}
 
     def _imported_from(self, module, name):
@@ -1799,6 +1820,7 @@ class PureSpec:
     # W28: a parameter of a union type `Union[A, C]` read in the `else` branch of `if isinstance(p, C):` — (parameter, class name) ->
     # (Lean template of "p, which is not a C", its type there)
     narrow: dict = field(default_factory=dict)
+    call_keywords: dict = field(default_factory=dict)   # W28: key of `calls` -> ALL parameter names (trailing arguments may be passed by keyword)
     open_ns: str = ""                              # further namespaces opened in the generated file
     prelude: list = field(default_factory=list)    # hand-written Lean lines emitted before the function (glue named by templates)
 
@@ -2276,6 +2298,39 @@ def render_get_comparam(repo: Path) -> str:
                                    rel, cls_name="HierarchyElement")
 
 
+# the typed accessors that read a simple parameter through `get_value()` and convert it with `int()` (`viaValue … intRes` of the model);
+# `self.get_comparam` is the function generated above, `get_value` / `int` are the model's `getValue` / `pyInt`
+_ACCESSORS_INT = ["get_can_func_req_id", "get_doip_logical_gateway_address", "get_doip_logical_tester_address",
+                  "get_doip_logical_functional_address", "get_doip_routing_activation_type"]
+ACCESSOR_SPEC = PureSpec(
+    params={"self": (("Rec", "HierarchyElement"), None), "protocol": (opt(_PROTOARG), "protocol")},
+    binders="(refs : List Inst) (protocol : Option ProtoArg)",
+    calls={("HierarchyElement", "get_comparam"): ("(← getComparamE refs {0} {1})", [PYSTR, opt(_PROTOARG)], opt(_INST), True),
+           ("Inst", "get_value"): ("(← Py.call errOfComparam (getValue {obj}))", [], PYSTR, True),
+           (None, "int"): ("(← pyIntE {0})", [PYSTR], INT, True)},
+    call_keywords={("HierarchyElement", "get_comparam"): ["cp_short_name", "protocol"]},
+    open_ns="OdxVerif.Comparam",
+    prelude=["/-- exception classes of the hand-written `getValue` (comparaminstance.py): `odxraise()` in strict mode is an OdxError -/",
+             "def errOfComparam : Comparam.Err → Py.Err | .odx => .odxError | .foreign => .foreign",
+             "/-- `int(s)` for a `str`: the model's `pyInt`; a string that is no integer literal raises ValueError (class `foreign`) -/",
+             "def pyIntE (s : String) : Py.M Int := match pyInt s with | some i => pure i | none => throw Py.Err.foreign"])
+
+
+def render_accessors(repo: Path) -> str:
+    rel = "odxtools/diaglayers/hierarchyelement.py"
+    src = (Path(repo) / rel).read_text()
+    out = []
+    for k, fn in enumerate(_ACCESSORS_INT):
+        spec = ACCESSOR_SPEC if k == 0 else PureSpec(**{**ACCESSOR_SPEC.__dict__, "prelude": []})
+        out.append(translate_pure_function(src, fn, spec, "OdxVerif.Comparam.Gen",
+                                           ["OdxVerif.Gen.GetComparam"] if k == 0 else [], rel, cls_name="HierarchyElement"))
+    return "\n".join(out)
+
+
+def regenerate_accessors(repo, verif):
+    return _write(Path(verif) / "lean" / "OdxVerif" / "Gen" / "ComparamAccessors.lean", render_accessors(Path(repo)))
+
+
 def regenerate_get_comparam(repo, verif):
     return _write(Path(verif) / "lean" / "OdxVerif" / "Gen" / "GetComparam.lean", render_get_comparam(Path(repo)))
 
@@ -2304,9 +2359,9 @@ if __name__ == "__main__":
     if len(sys.argv) > 2:
         for regen in (regenerate_isotp, regenerate_staticlen, regenerate_muxkey, regenerate_limit, regenerate_inherit_prio,
                       regenerate_itemkey, regenerate_odxlink_resolve, regenerate_required,
-                      regenerate_findsvc, regenerate_scale_applies, regenerate_segment_applies, regenerate_get_comparam):
+                      regenerate_findsvc, regenerate_scale_applies, regenerate_segment_applies, regenerate_get_comparam, regenerate_accessors):
             print(regen(repo, Path(sys.argv[2])))
     else:
         for render in (render_isotp, render_staticlen, render_muxkey, render_limit, render_inherit_prio, render_itemkey, render_odxlink_resolve, render_required,
-                       render_findsvc, render_scale_applies, render_segment_applies, render_get_comparam):
+                       render_findsvc, render_scale_applies, render_segment_applies, render_get_comparam, render_accessors):
             sys.stdout.write(render(repo))
